@@ -595,3 +595,9 @@ inst("base_unlimited__2x2", "terminal", "t_base_unlimited(2, 2)", 16, {"C02": T,
      desc="Terminal::new((2,2), None) satisfies InvT (Buffer::new reserves 1000 lines)", bounds="2x2, unlimited")
 ris(2, 2, 0, {"C19": T}, sb=1, limit="None", suffix="_unlimited", mem=20)
 ris(2, 2, 1, {"C19": T}, parked_rows=2, sb=0, limit="None", suffix="_unlimited", mem=20)
+
+inst("vt_calls", "vt", "t_vt_calls()", 16, {"C12": Q, "C13": Q, "C15": Q, "C02": T, "C01": T}, mem=8,
+     stubs=[("crate::terminal::Terminal::resize", "crate::terminal::Terminal::kv_log_resize"), ("crate::terminal::Terminal::changes", "crate::terminal::Terminal::kv_log_changes"),
+            ("crate::terminal::Terminal::gc", "crate::terminal::Terminal::kv_log_gc"), ("crate::terminal::Terminal::execute", "crate::terminal::Terminal::kv_log_execute")],
+     desc="call structure of Vt::resize / Vt::feed_str / Vt::feed with Terminal's methods replaced by call loggers: resize -> changes -> gc; execute* -> changes -> gc; feed -> execute",
+     bounds="any new size 1..9 x 1..9, a two-character string")
